@@ -456,7 +456,9 @@ class VariantIntervalCollection(AbstractFeatureIntervalCollection):
             parent_or_seq_chunk_parent=parent_or_seq_chunk_parent,
         )
 
-    def to_gff(self, chromosome_relative_coordinates: bool = True) -> Iterator[GFFRow]:
+    def to_gff(
+        self, chromosome_relative_coordinates: bool = True, raise_on_reserved_attributes: Optional[bool] = True
+    ) -> Iterator[GFFRow]:
         raise NotImplementedError("Cannot export Variants to GFF")
 
     @property
